@@ -173,6 +173,7 @@ static const char *const libc_nr_name[] = { "l64a", "strtok", "rand", "random", 
                                             "gmtime", "asctime", "ctime", "ecvt", "fcvt", "srand", "srandom", "a64l", "strsignal" };
 static int in_lib;
 static int realloc_inplace;      /* command ramode: 1 = a block that is large enough is resized in place */
+static int stage_mode;           /* command stage: 1 = phrase and setting are passed from the object's input/setting fields */
 #define NR_WRAP(idx, ret, name, params, args) \
   ret name params { static ret (*real) params; if (!real) real = (ret (*) params) dlsym (RTLD_NEXT, #name); \
                     if (in_lib) libc_nr_hit |= 1UL << (idx); return real args; }
@@ -1278,6 +1279,16 @@ main (int argc, char **argv)
           snprintf (rs_sched, sizeof rs_sched, "%s", rs_on && strcmp (t0, "=") ? t0 : "");
           rs_pos = 0;
         }
+      else if (!strcmp (cmd, "stage"))
+        stage_mode = atoi (t0);
+      else if (!strcmp (cmd, "aslimit"))
+        { /* aslimit <MiB> : soft address-space limit for the following calls (0 = back to the default) */
+          struct rlimit rl;
+          getrlimit (RLIMIT_AS, &rl);
+          long mib = atol (t0);
+          rl.rlim_cur = mib > 0 ? (rlim_t) mib << 20 : rl.rlim_max;
+          setrlimit (RLIMIT_AS, &rl);
+        }
       else if (!strcmp (cmd, "ramode"))
         realloc_inplace = atoi (t0);
       else if (!strcmp (cmd, "hugeok"))
@@ -1311,12 +1322,26 @@ main (int argc, char **argv)
           a_data = o->p;
           a_size = t3[0] ? atoi (t3) : CD_SIZE;
           which_fn = !strcmp (cmd, "xcrypt_r");
+          /* command "stage 1": the caller keeps passphrase and setting in the object's own input and setting fields, the
+             use <crypt.h> documents for them, and passes pointers to those */
+          const char *log_phr = a_phr, *log_set = a_set;
+          int staged = 0;
+          if (stage_mode && a_phr && a_set && a_phrlen < 512 && a_setlen < 384 && (a_size < 0 || a_size >= CD_SIZE || strcmp (cmd, "crypt_rn")))
+            {
+              memcpy (o->p + OFF_INPUT, a_phr, (size_t) a_phrlen + 1);
+              memcpy (o->p + OFF_SETTING, a_set, (size_t) a_setlen + 1);
+              a_phr = (const char *) o->p + OFF_INPUT;
+              a_set = (const char *) o->p + OFF_SETTING;
+              staged = 1;
+            }
           memcpy (pre_img, o->p, CD_SIZE);
           if (a_phr && scan_on)
             needles_from ((const unsigned char *) a_phr, (size_t) a_phrlen);
           int isrn = !strcmp (cmd, "crypt_rn");
           reentrant_call = 1;
           run_call (isrn ? call_crypt_rn : call_crypt_r);
+          a_phr = log_phr; a_set = log_set;            /* (the request is logged from the harness's own copies) */
+          (void) staged;
           fprintf (out, "{\"e\":\"%s\",\"o\":%d,\"al\":%d,\"pl\":%ld,\"ph\":", cmd, id, o->align, a_phrlen);
           emit_ph_s ();
           fprintf (out, ",\"size\":%d,\"ein\":%d,\"errno\":%d,\"ret\":\"%s\"", isrn ? a_size : CD_SIZE, ein_used, r_errno,
